@@ -190,6 +190,11 @@ def _callables(desc):
 
 def run_case(ck, desc):
     view, buf = _array(desc)
+    read_only = (len(desc["pressures"]) + int(desc["salinity"] * 10)) % 5 == 0
+    if read_only:
+        # a read-only view (e.g. a column of a frozen table): the correlation must not need to write to it
+        view.flags.writeable = False
+        ck.count("read_only_inputs")
     before = buf.tobytes()
     view_before = view.copy()
     arr_call, sc_call = _callables(desc)
@@ -256,7 +261,7 @@ def run_case(ck, desc):
             elif not np.all(np.abs(o2.astype(float) - want) <= 256 * eps * np.abs(want) + 1e-300):
                 ck.violation("elementwise", {"fn": desc["fn"], "form": label, "max_rel": float(np.max(np.abs(o2.astype(float) - want) / np.abs(want)))}, desc)
     # second call on the SAME buffer after the caller has overwritten its contents in place
-    if view.shape[0] >= 2 and view.dtype.kind == "f":
+    if view.shape[0] >= 2 and view.dtype.kind == "f" and not read_only:
         view *= 0.7
         view += 11.0
         out2 = np.asarray(arr_call(view))
